@@ -23,12 +23,12 @@ def compare(R, r, c, route, W):
 def both_routes(R, r, W):
     """construct with Builder(type_=...) bottom-up and parse from a foreign (R2) encoding; compare every cell"""
     libs = {}
-    for route in ('builder', 'boc'):
+    for route in ('builder', 'boc', 'boc-hashes'):
         memo = {}
         if route == 'builder':
             st, c = mon.call(bridge.to_lib, r, 'builder', memo)
         else:
-            st, c = mon.call(bridge.to_lib, r, 'boc')
+            st, c = mon.call(bridge.to_lib, r, route)
         if st == 'exc':
             R.exc(c)
             bad = 'mask' + '+'.join(sorted({str(x.mask) for x in gen.all_cells(r) if x.type == rc.PRUNED}))
@@ -123,7 +123,7 @@ def run(R):
     quick = R.tier == 'quick'
     inv = bridge.CellInvariant(R).install()
     R.rule = ('random spec-valid exotic trees (pruned branches of generated subtrees and raw ones with all 7 masks, library refs, '
-              'Merkle proofs/updates nested to level 3) obtained by Builder(type_) and by parsing an independent encoding; every cell '
+              'Merkle proofs/updates nested to level 3) obtained by Builder(type_) and by parsing independent encodings (without and with stored hashes on cells of mask 0/1/3/7); every cell '
               'compared with R1 at levels 0..3; exhaustive prunings of trees <= 8 cells; distinct = distinct root hash; '
               'non-trivial = tree contains at least one exotic cell')
     R.assumptions = ['R1 exotic-cell semantics validated on the pinned main-net block (pruned branches + Merkle update) and by '
@@ -165,6 +165,7 @@ def run(R):
     inv.uninstall()
     R.floor('masks_builder', 8, 'set')
     R.floor('masks_boc', 8, 'set')
+    R.floor('masks_boc-hashes', 8, 'set')
     R.floor('prunings_checked', 20)
     R.floor('inv_cells', 500)
 
